@@ -41,94 +41,67 @@ func checkC32(p *Prog, r *Result, tier string) {
 	}
 
 	// ---- SH
-	var share, avail, info types.Object
+	var share, info types.Object
 	F.inspectBody(func(n ast.Node) bool {
 		if as, ok := n.(*ast.AssignStmt); ok && len(as.Rhs) == 1 && len(as.Lhs) >= 1 {
 			if c, ok := unparen(as.Rhs[0]).(*ast.CallExpr); ok {
-				if f := F.Callee(c); f != nil {
-					switch f.Name() {
-					case "GetAvailableResource":
-						avail = F.objOf(as.Lhs[0])
-					case "doGetNodeResourceInfo":
-						info = F.objOf(as.Lhs[0])
-					}
+				if f := F.Callee(c); f != nil && f.Name() == "doGetNodeResourceInfo" {
+					info = F.objOf(as.Lhs[0])
 				}
 			}
 		}
 		return true
 	})
 	{
-		why := "no loop selecting the free cores from the available resource"
-		var at ast.Node = F.Decl
-		F.inspectBody(func(n ast.Node) bool {
-			rs, ok := n.(*ast.RangeStmt)
-			if !ok || rs.Key == nil || rs.Value == nil {
-				return true
-			}
-			sel, ok := unparen(rs.X).(*ast.SelectorExpr)
-			if !ok || sel.Sel.Name != "CPUMap" {
-				return true
-			}
-			if F.objOf(sel.X) != avail || avail == nil {
-				if F.objOf(sel.X) != nil && len(rs.Body.List) == 1 {
-					if _, isIf := rs.Body.List[0].(*ast.IfStmt); isIf {
-						why = "the shared cores are selected from `" + exprStr(rs.X) + "`, not from the node's available resource: cores whose pieces are taken by bound workloads stay in the share pool"
-						at = rs
-					}
-				}
-				return true
-			}
-			at = rs
-			cpu, pieces := F.objOf(rs.Key), F.objOf(rs.Value)
-			why = "the selection is not `if pieces >= ShareBase { share[cpu] = ShareBase }`"
-			if len(rs.Body.List) == 1 {
-				if is, ok := rs.Body.List[0].(*ast.IfStmt); ok && is.Else == nil && len(is.Body.List) == 1 {
-					be, ok1 := unparen(is.Cond).(*ast.BinaryExpr)
-					as, ok2 := is.Body.List[0].(*ast.AssignStmt)
-					if ok1 && ok2 && be.Op == token.GEQ && F.objOf(be.X) == pieces && strings.HasSuffix(exprStr(be.Y), "ShareBase") {
-						if base, idx := indexBaseObj(F, as.Lhs[0]); base != nil && F.objOf(idx) == cpu && strings.HasSuffix(exprStr(as.Rhs[0]), "ShareBase") {
-							share, why = base, ""
-						}
-					} else if ok1 && ok2 {
-						why = "a core is taken into the share pool under `" + exprStr(is.Cond) + "`, not under `pieces >= ShareBase` (a full share base still free)"
-					}
-				}
-			}
-			return true
-		})
-		r.check2(why, "SH", F.Name+" / shared cores are exactly the cores with a full share base still available", p.pos(at), "for cpu, pieces := range available.CPUMap { if pieces >= ShareBase { share[cpu] = ShareBase } }")
-		// fallback
-		why = "no fallback to all cores when no core is free"
-		if share != nil {
+		sh, why1, why2, at := c32Share(p, F, info)
+		share = sh
+		if sh == nil && strings.HasPrefix(why1, "no loop") {
+			// the pool is built by a helper that is handed the node's resource info: `pool := p.helper(info)`
 			F.inspectBody(func(n ast.Node) bool {
-				is, ok := n.(*ast.IfStmt)
+				as, ok := n.(*ast.AssignStmt)
+				if !ok || len(as.Lhs) != 1 || len(as.Rhs) != 1 || share != nil {
+					return true
+				}
+				c, ok := unparen(as.Rhs[0]).(*ast.CallExpr)
 				if !ok {
 					return true
 				}
-				be, ok := unparen(is.Cond).(*ast.BinaryExpr)
-				if !ok || be.Op != token.EQL {
+				H := p.ByObj[F.Callee(c)]
+				if H == nil || H.Body == nil || H.Pkg != F.Pkg || H == F {
 					return true
 				}
-				c, ok := unparen(be.X).(*ast.CallExpr)
-				if !ok || len(c.Args) != 1 || F.objOf(c.Args[0]) != share {
-					return true
-				}
-				if v, isC := F.constInt(be.Y); !isC || v != 0 {
-					return true
-				}
-				for _, st := range is.Body.List {
-					if rs, ok := st.(*ast.RangeStmt); ok {
-						if sel, ok := unparen(rs.X).(*ast.SelectorExpr); ok && sel.Sel.Name == "CPUMap" {
-							if s2, ok := unparen(sel.X).(*ast.SelectorExpr); ok && s2.Sel.Name == "Capacity" && F.objOf(s2.X) == info {
-								why = ""
-							}
-						}
+				var hinfo types.Object
+				for i, a := range c.Args {
+					if F.objOf(a) == info && info != nil {
+						hinfo = H.paramObj(i)
 					}
+				}
+				if hinfo == nil {
+					return true
+				}
+				hs, w1, w2, hat := c32Share(p, H, hinfo)
+				if hs == nil && strings.HasPrefix(w1, "no loop") {
+					return true
+				}
+				// the helper returns the pool it built
+				returnsPool := hs != nil
+				inspectNoLit(H.Body, func(x ast.Node) bool {
+					if rt, ok := x.(*ast.ReturnStmt); ok && (len(rt.Results) != 1 || H.objOf(rt.Results[0]) != hs) {
+						returnsPool = false
+					}
+					return true
+				})
+				why1, why2, at = w1, w2, hat
+				if returnsPool {
+					share = F.objOf(as.Lhs[0])
+				} else if w1 == "" {
+					why1 = "the helper that builds the share pool does not return it on every path"
 				}
 				return true
 			})
 		}
-		r.check2(why, "SH", F.Name+" / with no free core the share pool is every core of the node", p.pos(F.Decl), "if len(share) == 0 { for cpu := range info.Capacity.CPUMap { share[cpu] = ShareBase } }")
+		r.check2(why1, "SH", F.Name+" / shared cores are exactly the cores with a full share base still available", p.pos(at), "for cpu, pieces := range available.CPUMap { if pieces >= ShareBase { share[cpu] = ShareBase } }")
+		r.check2(why2, "SH", F.Name+" / with no free core the share pool is every core of the node", p.pos(F.Decl), "if len(share) == 0 { for cpu := range info.Capacity.CPUMap { share[cpu] = ShareBase } }")
 	}
 
 	// ---- UB / LIT
@@ -153,29 +126,41 @@ func checkC32(p *Prog, r *Result, tier string) {
 					return true
 				}
 				at = as
-				// enclosing if: len(w.CPUMap) == 0
+				// reached only when len(w.CPUMap) == 0 (an enclosing if, or a `continue` for the bound ones before it)
 				guarded := false
-				inspectNoLit(rs.Body, func(y ast.Node) bool {
-					is, ok := y.(*ast.IfStmt)
-					if !ok || !(is.Body.Pos() <= as.Pos() && as.End() <= is.Body.End()) {
-						return true
-					}
-					be, ok := unparen(is.Cond).(*ast.BinaryExpr)
-					if !ok || be.Op != token.EQL {
-						return true
-					}
-					c, ok := unparen(be.X).(*ast.CallExpr)
-					if !ok || len(c.Args) != 1 {
-						return true
-					}
-					sel, ok := unparen(c.Args[0]).(*ast.SelectorExpr)
-					if ok && sel.Sel.Name == "CPUMap" && F.objOf(sel.X) == w {
-						if v, isC := F.constInt(be.Y); isC && v == 0 {
+				if conds, ok := pathConds(rs.Body, as); ok {
+					for _, c := range conds {
+						e, pos := unparen(c.Expr), c.Pos
+						for {
+							u, isNot := e.(*ast.UnaryExpr)
+							if !isNot || u.Op != token.NOT {
+								break
+							}
+							e, pos = unparen(u.X), !pos
+						}
+						be, ok := e.(*ast.BinaryExpr)
+						if !ok {
+							continue
+						}
+						lc, ok := unparen(be.X).(*ast.CallExpr)
+						if !ok || len(lc.Args) != 1 || !isBuiltinCall(F, lc, "len") {
+							continue
+						}
+						sel, ok := unparen(lc.Args[0]).(*ast.SelectorExpr)
+						if !ok || sel.Sel.Name != "CPUMap" || F.objOf(sel.X) != w {
+							continue
+						}
+						v, isC := F.constInt(be.Y)
+						if !isC {
+							continue
+						}
+						isZero := (be.Op == token.EQL && v == 0) || (be.Op == token.LEQ && v == 0) || (be.Op == token.LSS && v == 1)
+						nonZero := (be.Op == token.NEQ && v == 0) || (be.Op == token.GTR && v == 0) || (be.Op == token.GEQ && v == 1)
+						if (isZero && pos) || (nonZero && !pos) {
 							guarded = true
 						}
 					}
-					return true
-				})
+				}
 				if guarded {
 					why = ""
 				} else {
@@ -553,4 +538,110 @@ func checkRemapMerge(p *Prog, r *Result, MR *FuncNode, rule string) {
 		return true
 	})
 	r.check2(whyM, rule, MR.Name+" / the plugins' parameter sets of one workload are kept side by side", p.pos(MR.Decl), "entry created only when absent; result stored under [id][plugin.Name()]")
+}
+
+// c32Share: in S (the remap calculation or the helper it delegates the pool to) the share pool is built from the available
+// resource: `for cpu, pieces := range available.CPUMap { if pieces >= ShareBase { pool[cpu] = ShareBase } }`, with the
+// fallback `if len(pool) == 0 { for cpu := range info.Capacity.CPUMap {…} }`; returns the pool variable and what is
+// missing for each of the two obligations.
+func c32Share(p *Prog, F *FuncNode, info types.Object) (share types.Object, why, why2 string, at ast.Node) {
+	var avail types.Object
+	F.inspectBody(func(n ast.Node) bool {
+		if as, ok := n.(*ast.AssignStmt); ok && len(as.Rhs) == 1 && len(as.Lhs) >= 1 {
+			if c, ok := unparen(as.Rhs[0]).(*ast.CallExpr); ok {
+				if f := F.Callee(c); f != nil && f.Name() == "GetAvailableResource" {
+					avail = F.objOf(as.Lhs[0])
+				}
+			}
+		}
+		return true
+	})
+	why = "no loop selecting the free cores from the available resource"
+	at = F.Decl
+	F.inspectBody(func(n ast.Node) bool {
+		rs, ok := n.(*ast.RangeStmt)
+		if !ok || rs.Key == nil || rs.Value == nil {
+			return true
+		}
+		sel, ok := unparen(rs.X).(*ast.SelectorExpr)
+		if !ok || sel.Sel.Name != "CPUMap" {
+			return true
+		}
+		if F.objOf(sel.X) != avail || avail == nil {
+			if F.objOf(sel.X) != nil && len(rs.Body.List) == 1 {
+				if _, isIf := rs.Body.List[0].(*ast.IfStmt); isIf {
+					why = "the shared cores are selected from `" + exprStr(rs.X) + "`, not from the node's available resource: cores whose pieces are taken by bound workloads stay in the share pool"
+					at = rs
+				}
+			}
+			return true
+		}
+		at = rs
+		cpu, pieces := F.objOf(rs.Key), F.objOf(rs.Value)
+		why = "the selection is not `if pieces >= ShareBase { share[cpu] = ShareBase }`"
+		// the single store into the pool, reached exactly when pieces >= ShareBase
+		var stores []*ast.AssignStmt
+		inspectNoLit(rs.Body, func(x ast.Node) bool {
+			if as, ok := x.(*ast.AssignStmt); ok && len(as.Lhs) == 1 {
+				if _, isIx := unparen(as.Lhs[0]).(*ast.IndexExpr); isIx {
+					stores = append(stores, as)
+				}
+			}
+			return true
+		})
+		if len(stores) != 1 {
+			return true
+		}
+		as := stores[0]
+		base, idx := indexBaseObj(F, as.Lhs[0])
+		if base == nil || F.objOf(idx) != cpu || !strings.HasSuffix(exprStr(as.Rhs[0]), "ShareBase") {
+			return true
+		}
+		conds, ok := pathConds(rs.Body, as)
+		if !ok || len(conds) != 1 {
+			return true
+		}
+		if kind, x, y, ok := normCmp(conds[0].Expr, conds[0].Pos); ok && kind == "ge" && F.objOf(x) == pieces && strings.HasSuffix(exprStr(y), "ShareBase") {
+			share, why = base, ""
+		} else {
+			pre := ""
+			if !conds[0].Pos {
+				pre = "not "
+			}
+			why = "a core is taken into the share pool under " + pre + "`" + exprStr(conds[0].Expr) + "`, not under `pieces >= ShareBase` (a full share base still free)"
+		}
+		return true
+	})
+	// fallback
+	why2 = "no fallback to all cores when no core is free"
+	if share != nil {
+		F.inspectBody(func(n ast.Node) bool {
+			is, ok := n.(*ast.IfStmt)
+			if !ok {
+				return true
+			}
+			be, ok := unparen(is.Cond).(*ast.BinaryExpr)
+			if !ok || be.Op != token.EQL {
+				return true
+			}
+			c, ok := unparen(be.X).(*ast.CallExpr)
+			if !ok || len(c.Args) != 1 || F.objOf(c.Args[0]) != share {
+				return true
+			}
+			if v, isC := F.constInt(be.Y); !isC || v != 0 {
+				return true
+			}
+			for _, st := range is.Body.List {
+				if rs, ok := st.(*ast.RangeStmt); ok {
+					if sel, ok := unparen(rs.X).(*ast.SelectorExpr); ok && sel.Sel.Name == "CPUMap" {
+						if s2, ok := unparen(sel.X).(*ast.SelectorExpr); ok && s2.Sel.Name == "Capacity" && F.objOf(s2.X) == info {
+							why2 = ""
+						}
+					}
+				}
+			}
+			return true
+		})
+	}
+	return share, why, why2, at
 }
